@@ -211,7 +211,7 @@ func runSWInBubble(t *testing.T, sc *SWScenario) []sim.Ev {
 	// the provider draws random keys (network size estimation) from crypto/rand: make that
 	// stream a function of the scenario so that a run can be repeated
 	oldReader := crand.Reader
-	crand.Reader = rand.New(rand.NewSource(sc.Seed ^ 0x5eed))
+	crand.Reader = sim.SeededReader(sc.Seed ^ 0x5eed)
 	defer func() { crand.Reader = oldReader }()
 	e := &swEnv{sc: sc, peerIdx: map[peer.ID]int{}, keyIdx: map[string]int{}, swarm: map[int]bool{}, online: true, start: time.Now(), tr: &sim.Trace{}}
 	e.self = sim.NewPeerID(r)
